@@ -76,6 +76,7 @@ class Features:
     explicit_ttree: bool = True
     echo: bool = True
     follow_links: int = 0  # follow object-valued methods up to this many steps (C10)
+    flat_aggregates: bool = True  # aggregates / First over a sequence flattened by an inner SelectMany
     math_names: Tuple[str, ...] = (
         "sin", "cos", "tanh", "atan", "exp2small", "sqrtabs", "log1pabs", "atan2", "hypot", "fabs", "abs", "cbrt", "erf", "fmax", "fmin",
         "copysign", "fdim", "ceil",
@@ -260,11 +261,11 @@ class QGen:
             opts.append((1, "range"))
         if fuel > 0 and self.f.closures and (vm or objs):
             opts.append((5, "selfjoin"))
-        if fuel > 1:
-            if self.noflat:
+        if fuel > 1 or (fuel > 0 and self.noflat and getattr(self.f, "flat_aggregates", True)):
+            if self.noflat and not getattr(self.f, "flat_aggregates", True):
                 self.excluded["aggregate-over-inner-SelectMany"] = self.excluded.get("aggregate-over-inner-SelectMany", 0) + 1
             else:
-                opts.append((2, "selectmany"))
+                opts.append((5 if self.noflat else 2, "selectmany"))
         k = self.weighted(opts)
         base = None
         self._bare = False
@@ -336,6 +337,8 @@ class QGen:
                     m = self.pick(vms)
                     v = self.newvar(scope, "j")
                     self.labels.add("SelectMany-inner")
+                    if self.noflat:
+                        self.labels.add("aggregate-or-First-over-flattened-sequence")
                     self.nops += 1
                     base = (f"{os_[0]}.SelectMany(lambda {v}: {v}.{m.name}())", m.ctype)
         if base is None:
